@@ -77,7 +77,8 @@ def merge_case(rng, nprobes=None, **kw):
         probes.append(probe_spec(rng, i, tdtype=tdtype, idtype=idtype, tsv=tsv, **kw))
     if rng.random() < .2 and k > 1:      # optional matrices in only some probes
         del probes[rng.randrange(k)]['similar_templates']
-    return dict(probes=probes, dirnames=rng.pick(['idx', 'rev', 'nat']), dirkind=rng.pick(['path', 'str']))
+    return dict(probes=probes, dirnames=rng.pick(['idx', 'rev', 'nat']), dirkind=rng.pick(['path', 'str']),
+                twice=rng.random() < .25)
 
 
 def _hash_dir(d):
@@ -140,4 +141,13 @@ def run_merge(case):
         after = [_hash_dir(sd) for sd in subdirs]
         res['inputs_unchanged'] = [a == b for a, b in zip(before, after)]
         res['inputs_changed_files'] = [sorted(set(a.items()) ^ set(b.items())) for a, b in zip(before, after)]
+        if case.get('twice'):
+            # the same probes merged a second time in the same process give the same files
+            out2 = d / 'merged_again'
+            try:
+                Merger(subdirs, out2).merge().close()
+                h1, h2 = _hash_dir(out), _hash_dir(out2)
+                res['second_merge_differs'] = sorted(k for k in set(h1) | set(h2) if h1.get(k) != h2.get(k))
+            except Exception as e:  # noqa
+                res['second_merge_differs'] = ['raised %s: %s' % (type(e).__name__, str(e)[:120])]
     return res
